@@ -468,10 +468,41 @@ def snapshot_args(args):
     return snaps
 
 
+def freeze_args(args):
+    """Pre-state view of the arguments: tensors are replaced by snapshots of their current
+    element functions, so that spec/ensures talk about the values at entry even when the
+    body writes to argument storage."""
+    from .interp import Obj
+
+    def fz(v):
+        if isinstance(v, STensor):
+            rd = v.reader()
+            t = STensor(list(v.shape), v.dtype, fn=lambda idx: rd(idx), kind=v.kind)
+            for a in ("sym", "name", "bounds", "selinfo", "row_sel", "fdtype"):
+                if hasattr(v, a):
+                    setattr(t, a, getattr(v, a))
+            t.origin = v.origin
+            t.orig_reader = rd
+            return t
+        if isinstance(v, list):
+            return [fz(x) for x in v]
+        if isinstance(v, tuple):
+            return tuple(fz(x) for x in v)
+        if isinstance(v, dict):
+            return {k: fz(x) for k, x in v.items()}
+        return v
+
+    return {k: fz(v) for k, v in args.items()}
+
+
 def frame_clauses(snaps, allowed=()):
     out = []
     for name, own, rd0, shape in snaps:
+        if any(name == a or name.startswith(a + "[") or name.startswith(a + ".") for a in allowed):
+            continue
         if not own.written:
+            # no in-place write reached this storage on this path
+            out.append(("frame/%s-unmodified" % name, True))
             continue
         if any(name == a or name.startswith(a + "[") or name.startswith(a + ".") for a in allowed):
             continue
@@ -587,7 +618,12 @@ def verify_contract(loader, registry, con, dim_override=None, observed=False, in
                             path.assume(V.zbool(cond) if not isinstance(cond, bool) else cond)
                 except PathAbort:
                     continue
+                # vacuity canary: the contract's own assumptions (input constraints and
+                # `requires`) must be satisfiable; checked once per case, before any branch
+                if not decisions and not path.canary(tag):
+                    rep.vacuous.append(tag + " (requires/input assumptions are contradictory)")
                 snaps = snapshot_args(args)
+                pre = freeze_args(args)
                 interp = Interp(loader, registry, path, top=con.target, inline=inline)
                 exc = None
                 result = None
@@ -595,22 +631,19 @@ def verify_contract(loader, registry, con, dim_override=None, observed=False, in
                     result = con.run(interp, args)
                 except PyExc as e:
                     exc = e
-                # vacuity canary
-                if not path.canary(tag):
-                    rep.vacuous.append(tag + " path %r" % (decisions,))
                 if exc is not None:
-                    allowed = con.allowed_exception(c, exc, **args)
+                    allowed = con.allowed_exception(c, exc, **pre)
                     if allowed is True:
                         pass
                     else:
                         ob = path.prove("%s/total(no %s)" % (tag, exc.cls_name), False if allowed is False else allowed, level=con.level)
                         ob.detail = "raises %s" % (exc,)
                 else:
-                    sp = con.spec(c, **args)
+                    sp = con.spec(c, **pre)
                     clauses = []
                     if sp is not NotImplemented:
                         clauses.extend(equal_clauses("post", result, sp))
-                    clauses.extend(_named(con.ensures(c, result, **args)))
+                    clauses.extend(_named(con.ensures(c, result, **pre)))
                     if con.pure:
                         clauses.extend(frame_clauses(snaps, getattr(con, "modifies", ())))
                     for name, cl in clauses:
